@@ -30,7 +30,8 @@ LB = np.array([-4.0, -4.0])
 UB = np.array([4.0, 3.0])  # PTS[2] sits on the upper bound (one-sided stencils)
 # TODO second alphabet with a degenerate side
 SCALES = [0.25, 3.0]
-MODES = ["callable", "2-point", "3-point", "cs", None]
+MODES = ["callable", "callable_buf", "2-point", "3-point", "cs", None]
+CALLABLE = ("callable", "callable_buf")   # callable_buf: the user's gradient writes into one buffer and returns it every time
 
 
 def F(x):
@@ -67,11 +68,16 @@ class Rec:
             self.calls.append(("F", pkey(x)))
             return Fc(x) if mode == "cs" else F(x)
 
+        buf = np.empty(2)
+
         def g(x):
             self.calls.append(("G", pkey(x)))
+            if mode == "callable_buf":
+                buf[:] = Gr(x)
+                return buf
             return Gr(x)
 
-        jac = g if mode == "callable" else mode
+        jac = g if mode in CALLABLE else mode
         self.x0arr = PTS[0].copy()   # the caller keeps (and may overwrite) the array it constructed with
         self.sf = prepare_scalar_function(f, self.x0arr, jac=jac, bounds=(LB, UB), epsilon=1e-7)
 
@@ -81,7 +87,8 @@ def symbols(extra: bool) -> List[Tuple[str, int]]:
     if extra:
         # "mut": the caller overwrites in place the array it passed last (or constructed with);
         # "samefun"/"samefg": the caller passes that very array object again
-        syms += [("scale", 0), ("scale", 1), ("mut", 0), ("samefun", 0), ("samefg", 0)]
+        # "scribble": the caller overwrites in place the gradient array it received last
+        syms += [("scale", 0), ("scale", 1), ("mut", 0), ("samefun", 0), ("samefg", 0), ("scribble", 0)]
     return syms
 
 
@@ -89,11 +96,17 @@ def run_python(mode, hist) -> Tuple[List[str], List[str]]:
     """returns (driver op lines, expected output lines) for one history on the real wrapper"""
     r = Rec(mode)
     sf = r.sf
-    ops = [f"sf.new {'callable' if mode == 'callable' else 'fd'} {vhex(PTS[0])} {vhex(LB)} {vhex(UB)}"]
+    ops = [f"sf.new {'callable' if mode in CALLABLE else 'fd'} {vhex(PTS[0])} {vhex(LB)} {vhex(UB)}"]
     exp = ["ok"]
     last = r.x0arr
     lastj = 0
+    lastg = None
     for op, j in hist:
+        if op == "scribble":
+            # the caller overwrites the last gradient it was handed; value semantics in the model: nothing happens
+            if lastg is not None:
+                lastg[:] = 777.0
+            continue
         if op == "scale":
             sf.scaling_factor = SCALES[j]
             ops.append(f"sf.scale {fhex(SCALES[j])}")
@@ -118,10 +131,12 @@ def run_python(mode, hist) -> Tuple[List[str], List[str]]:
             g = sf.grad(arr)
             ops.append(f"sf.grad {vhex(PTS[j])}")
             exp.append(f"grad {vhex(g)} {sf.nfev} {sf.ngev}")
+            lastg = g
         else:
             v, g = sf.fun_and_grad(arr)
             ops.append(f"sf.fg {vhex(PTS[j])}")
             exp.append(f"both {fhex(v)} {vhex(g)} {sf.nfev} {sf.ngev}")
+            lastg = g
     ops.append("sf.log")
     exp.append("log " + " ".join(f"{k}:{p}" for k, p in r.calls))
     return ops, exp
@@ -152,7 +167,18 @@ def oracle_check(mode, hist) -> List[str]:
     last = r.x0arr
     lastj = 0
     cur_pt, f_done, g_done = None, False, False
+    held: List[List[Any]] = []     # [array handed out, its value then, scribbled by the caller?]
     for k, (op, j) in enumerate(hist):
+        # an answer handed out earlier must not change afterwards (unless the caller itself wrote into it)
+        for h_ in held:
+            if not h_[2] and vhex(h_[0]) != h_[1]:
+                errs.append(f"op{k}: a gradient handed out earlier changed afterwards (it aliases the wrapper's or the user's buffer)")
+                h_[2] = True
+        if op == "scribble":
+            if held:
+                held[-1][0][:] = 777.0
+                held[-1][2] = True
+            continue
         if op == "scale":
             sf.scaling_factor = SCALES[j]
             scale = SCALES[j]
@@ -174,17 +200,19 @@ def oracle_check(mode, hist) -> List[str]:
                 errs.append(f"op{k}: fun({j}) stale/wrong value")
         elif op == "grad":
             g = sf.grad(arr)
-            if mode == "callable" and vhex(g) != vhex(Gr(PTS[j]) * scale):
+            held.append([g, vhex(g), False])
+            if mode in CALLABLE and vhex(g) != vhex(Gr(PTS[j]) * scale):
                 errs.append(f"op{k}: grad({j}) stale/wrong value")
-            if mode != "callable" and vhex(g) != vhex(fresh_fd(mode, PTS[j]) * scale):
+            if mode not in CALLABLE and vhex(g) != vhex(fresh_fd(mode, PTS[j]) * scale):
                 errs.append(f"op{k}: grad({j}) differs from the finite-difference gradient computed afresh at that point")
         else:
             v, g = sf.fun_and_grad(arr)
+            held.append([g, vhex(g), False])
             if fhex(v) != fhex(F(PTS[j]) * scale):
                 errs.append(f"op{k}: fun_and_grad({j}) stale/wrong f")
-            if mode == "callable" and vhex(g) != vhex(Gr(PTS[j]) * scale):
+            if mode in CALLABLE and vhex(g) != vhex(Gr(PTS[j]) * scale):
                 errs.append(f"op{k}: fun_and_grad({j}) stale/wrong g")
-            if mode != "callable" and vhex(g) != vhex(fresh_fd(mode, PTS[j]) * scale):
+            if mode not in CALLABLE and vhex(g) != vhex(fresh_fd(mode, PTS[j]) * scale):
                 errs.append(f"op{k}: fun_and_grad({j}) gradient differs from the finite-difference gradient computed afresh")
         new = r.calls[n0:]
         # not re-evaluated at the point it was last evaluated at: consecutive requests at
@@ -202,7 +230,7 @@ def oracle_check(mode, hist) -> List[str]:
         g_done = g_done or nG > 0
         if sf.nfev != sum(1 for c in r.calls if c[0] == "F"):
             errs.append(f"op{k}: nfev={sf.nfev} != F calls")
-        if mode == "callable" and sf.ngev != sum(1 for c in r.calls if c[0] == "G"):
+        if mode in CALLABLE and sf.ngev != sum(1 for c in r.calls if c[0] == "G"):
             errs.append(f"op{k}: ngev={sf.ngev} != G calls")
     return errs
 
@@ -272,12 +300,14 @@ def run(tier: str, seed: int) -> int:
     nrand = 500 if tier == "quick" else 5000
     jobs = []
     for mode in MODES:
-        Lm = L9 if mode == "callable" or tier == "quick" else 5
+        Lm = L9 if mode in CALLABLE or tier == "quick" else 5
         hs = itertools.product(symbols(False), repeat=Lm)
         for ch in chunks(hs, 4000):
             jobs.append((mode, ch))
     for ch in chunks(itertools.product(symbols(True), repeat=L12), 4000):
         jobs.append(("callable", ch))
+    for ch in chunks(itertools.product(symbols(True), repeat=L12 - 1), 4000):
+        jobs.append(("callable_buf", ch))
     rnd = []
     for _ in range(nrand):
         mode = rng.choice(MODES)
@@ -287,11 +317,11 @@ def run(tier: str, seed: int) -> int:
     drv = Driver() if st.build_ok else None
     mismatches: List[Dict[str, Any]] = []
     prop_fail: List[Dict[str, Any]] = []
-    fdt = {m: fd_table(m) for m in MODES if m != "callable"}
+    fdt = {m: fd_table(m) for m in MODES if m not in CALLABLE}
     base = table_lines()
     with mp.Pool(16) as pool:
         for mode, out in pool.imap_unordered(_work, jobs, chunksize=1):
-            lines = ["reset"] + base + (fdt[mode] if mode != "callable" else [])
+            lines = ["reset"] + base + (fdt[mode] if mode not in CALLABLE else [])
             expected = []
             for h, ops, exp, errs in out:
                 lines += ops
@@ -299,7 +329,7 @@ def run(tier: str, seed: int) -> int:
                 rep.evaluations += 1
                 rep.count(f"mode={mode}")
                 rep.count(f"len={len(h)}")
-                if any(o in ("scale", "mut", "samefun", "samefg") for o, _ in h):
+                if any(o in ("scale", "mut", "samefun", "samefg", "scribble") for o, _ in h):
                     rep.count("with_scale_or_mutation")
                 if len(set(j for o, j in h if o in ("fun", "grad", "fg"))) > 1 or any(o == "mut" for o, _ in h):
                     rep.nontrivial.add((str(mode), tuple(h)))
@@ -321,7 +351,9 @@ def run(tier: str, seed: int) -> int:
                         break
                     i += len(exp)
     rep.rule = (f"all histories of length {L9} over {{fun,grad,fun_and_grad}}x3 points in every gradient mode, "
-                f"all histories of length {L12} with scale changes and caller-side mutation, {nrand} random histories "
+                f"all histories of length {L12} with scale changes and caller-side mutation (of the point arrays and, in place, of the gradient "
+                f"arrays handed out: every answer is kept and must stay what it was), the same of length {L12 - 1} with a user gradient that "
+                f"reuses one output buffer, {nrand} random histories "
                 "of length 7..40; non-trivial = touches at least two distinct points")
     rep.extra["exhaustive"] = True
     rep.extra["traces_validated_against_impl"] = rep.evaluations
